@@ -222,9 +222,12 @@ def prepare_affine_cornersafe(
     pads: list[tuple[int, ...]] = []
     new_center: list[float] = []
     need_pad = False
+    # nearest-neighbor sampling also needs one voxel of margin, and one more voxel at the
+    # upper end covers the fractional parts of the position and of the diagonal length
+    margin = max(order, 1)
     for c, s0 in zip(center, img.shape):
-        x0 = int(c - half_len - order)
-        x1 = int(x0 + max_len + 2 * order + 1)
+        x0 = int(c - half_len - margin)
+        x1 = int(x0 + max_len + 2 * margin + 2)
         _sl, _pad, _need_pad = make_slice_and_pad(x0, x1, s0)
         slices.append(_sl)
         pads.append(_pad)
